@@ -37,6 +37,11 @@ def check_index(c):
     if c.get("limit"):
         ms = state.max_size
         expect_raises(ValueError, lambda: state.generate_hilbert_space(ms + c["limit"]), "max_size:not-refused", f"generate_hilbert_space({ms + c['limit']}) beyond max_size {ms}")
+        expect_raises(ValueError, lambda: state.generate_hilbert_space(size=ms + c["limit"]), "max_size:not-refused", "generate_hilbert_space(size=...) beyond max_size (keyword form)")
+        from qucumber.nn_states import PositiveWaveFunction as _P
+        big = _P(ms + c["limit"], 1, gpu=False)          # a model whose own register is beyond the limit: the DEFAULT size must be refused too
+        expect_raises(ValueError, lambda: big.generate_hilbert_space(), "max_size:default-size-not-refused", f"generate_hilbert_space() of a {ms + c['limit']}-qubit model (size defaulted)")
+        expect_raises(ValueError, lambda: big.generate_hilbert_space(None), "max_size:default-size-not-refused", "generate_hilbert_space(None) of a model beyond the limit")
         if c.get("at_limit"):
             sp = state.generate_hilbert_space(ms)
             require(tuple(sp.shape) == (2 ** ms, ms), "max_size:refused-at-limit", f"generate_hilbert_space(max_size) has shape {tuple(sp.shape)}")
